@@ -70,6 +70,14 @@ def cases(ctx):
                     continue
                 add(((2021, 1, 31), None, (y, m, d)), None, ZONES[((y or 0) + (m or 0) + (d or 0)) % 7], "duration from Jan 31")
                 add((None, None, (y, m, d)), None, 0, "duration from now")
+    # start dates where each component of the addition matters on its own: leap days, ends of months
+    starts = [(2024, 2, 29), (2048, 2, 29), (2000, 2, 29), (2023, 3, 31), (2023, 12, 31), (2023, 8, 30), (2020, 2, 28)]
+    durs = [(1, 1, None), (2, 3, 10), (1, 11, None), (4, None, None), (None, 12, None), (1, None, 1), (None, 1, 1), (3, 13, 31), (1, 1, 1), (None, None, 366), (25, 6, None)]
+    for si, st in enumerate(starts):
+        for di, du in enumerate(durs):
+            add((st, None, du), None, ZONES[(si + di) % 7], "duration from a leap day / end of month")
+            if di < 3:
+                add(None, (st, None, du), ZONES[(si + di + 3) % 7], "profile duration from a leap day / end of month")
     # own block x profile block: which one wins
     shapes = [None, (None, None, None), ((2030, 2, 3), None, None), (None, (2041, 5, 6), None), (None, None, (2, 3, 4)),
               ((2030, 2, 3), (2041, 5, 6), None), ((2030, 2, 3), None, (2, 3, 4))]
